@@ -200,17 +200,17 @@ theorem opIf_nOps {c : Ctx} {st st' : St} {b : Bool} (h : opIf c st b = .ok st')
         · cases h; rfl
   · cases h; rfl
 
-theorem opCheckMultisig_nOps {c : Ctx} {st st' : St} {v : Bool} (h : opCheckMultisig c st v = .ok st') :
-    st'.nOps ≤ MAX_OPS_PER_SCRIPT := by
-  unfold opCheckMultisig at h
-  simp only [bind, Except.bind] at h
+theorem multisigArgs_nOps {c : Ctx} {st : St} {a : MsArgs} (h : multisigArgs c st = .ok a) :
+    a.nOps ≤ MAX_OPS_PER_SCRIPT := by
+  unfold multisigArgs at h
   split at h
   · cases h
   · split at h
     · cases h
     · split at h
       · cases h
-      · split at h
+      · simp only [] at h
+        split at h
         · cases h
         · split at h
           · cases h
@@ -225,23 +225,33 @@ theorem opCheckMultisig_nOps {c : Ctx} {st st' : St} {v : Bool} (h : opCheckMult
                   · cases h
                   · split at h
                     · cases h
-                    · split at h
-                      · cases h
-                      · split at h
-                        · cases h
-                        · split at h
-                          · cases h
-                          · split at h
-                            · cases h
-                            · split at h
-                              · cases h
-                              · split at h
-                                · split at h
-                                  · cases h; simp only []; omega
-                                  · cases h
-                                · cases h; simp only []; omega
+                    · cases h; simp only []; omega
 
+theorem multisigFinish_nOps {c : Ctx} {st st' : St} {a : MsArgs} {s v : Bool}
+    (h : multisigFinish c st a s v = .ok st') : st'.nOps = a.nOps := by
+  unfold multisigFinish at h
+  split at h
+  · cases h
+  · split at h
+    · cases h
+    · split at h
+      · split at h
+        · cases h; rfl
+        · cases h
+      · cases h; rfl
 
+theorem opCheckMultisig_nOps {c : Ctx} {st st' : St} {v : Bool} (h : opCheckMultisig c st v = .ok st') :
+    st'.nOps ≤ MAX_OPS_PER_SCRIPT := by
+  unfold opCheckMultisig at h
+  simp only [bind, Except.bind] at h
+  split at h
+  · cases h
+  · rename_i a ha
+    split at h
+    · cases h
+    · split at h
+      · cases h
+      · rw [multisigFinish_nOps h]; exact multisigArgs_nOps ha
 
 theorem opCLTV_eq {c : Ctx} {st st' : St} (h : opCLTV c st = .ok st') : st' = st := by
   unfold opCLTV at h
